@@ -7,7 +7,7 @@ from vf.framework import harness
 F = "quantarhei/qm/liouvillespace/heom.py"
 
 
-def make_hierarchy(cx, nbath, depth, N, zero_coupling=False):
+def make_hierarchy(cx, nbath, depth, N, zero_coupling=False, rwa_blocks=None):
     """real KTHierarchy.__init__ driven with stand-ins for the Hamiltonian and the
     system-bath interaction (it only reads N, KK, correlation time, reorganisation energy,
     temperature and the component type)"""
@@ -33,8 +33,20 @@ def make_hierarchy(cx, nbath, depth, N, zero_coupling=False):
         get_correlation_time=lambda i: tau[i], get_reorganization_energy=lambda i: lam[i],
         get_temperature=lambda: T)
     H = cx.hermitian("H", N)
-    om = cx.real_array("Om", N)
-    ham = types.SimpleNamespace(dim=N, data=H, has_rwa=True, rwa_indices=numpy.arange(N),
+    if rwa_blocks is None:
+        om = cx.real_array("Om", N)
+        rwa_indices = numpy.arange(N)
+    else:
+        # rotating-wave blocks starting at the given state indices: one frequency per BLOCK, stored per STATE
+        # (as Hamiltonian.set_rwa does)
+        blk = cx.real_array("Om", len(rwa_blocks))
+        bounds = list(rwa_blocks) + [N]
+        om = numpy.empty(N, dtype=object if cx.sym else float)
+        for b in range(len(rwa_blocks)):
+            for i in range(bounds[b], bounds[b + 1]):
+                om[i] = blk[b]
+        rwa_indices = numpy.array(rwa_blocks)
+    ham = types.SimpleNamespace(dim=N, data=H, has_rwa=True, rwa_indices=rwa_indices,
                                 rwa_energies=om)
     hy = KTHierarchy(ham, sbi, depth)
     return hy, dict(lam=lam, tau=tau, T=T, V=V, H=H, om=om)
@@ -240,16 +252,17 @@ def rhs_step(cx, nbath, depth, N):
 
 
 @harness("C16", "closed_system_limit",
-         quick=[dict(nbath=2, depth=2, N=2)], thorough=[dict(nbath=2, depth=2, N=2), dict(nbath=2, depth=2, N=3),
-                                                       dict(nbath=3, depth=3, N=2)],
+         quick=[dict(nbath=2, depth=2, N=2), dict(nbath=1, depth=1, N=4, rwa_blocks=[0, 1, 3])],
+         thorough=[dict(nbath=2, depth=2, N=2), dict(nbath=2, depth=2, N=3), dict(nbath=3, depth=3, N=2),
+                   dict(nbath=1, depth=1, N=4, rwa_blocks=[0, 1, 3]), dict(nbath=2, depth=1, N=3, rwa_blocks=[0, 2])],
          functions=[F + ":KTHierarchyPropagator._ado_self_rhs", F + ":KTHierarchyPropagator._ado_cros_rhs",
                     F + ":KTHierarchyPropagator.propagate"],
          bound="zero reorganisation energies, auxiliary operators above level 0 zero: one right-hand side and a whole "
                "propagate() run (2 stored times, expansion order 2)",
          out="")
-def closed_system_limit(cx, nbath, depth, N):
+def closed_system_limit(cx, nbath, depth, N, rwa_blocks=None):
     import quantarhei as qr
-    hy, inp = make_hierarchy(cx, nbath, depth, N, zero_coupling=True)
+    hy, inp = make_hierarchy(cx, nbath, depth, N, zero_coupling=True, rwa_blocks=rwa_blocks)
     kp = make_propagator(cx, hy)
     ado = hermitian_ados(cx, hy.hsize, N, zero_above=True)
     inc = kp._ado_cros_rhs(ado, kp.dt, 0) + kp._ado_self_rhs(ado, kp.dt, 0)
